@@ -163,16 +163,31 @@ Theorem c06_header_fixed_point :
 Proof. exact header_fixed_point. Qed.
 Print Assumptions c06_header_fixed_point.
 
+Definition c06_example_header : header :=
+  mkHeader (Some (mkHd 1 6 [((83,79), [117;110;107])]))
+           [mkSq [99;104;114;49] 2147483647 [((77,53), [97;98])]; mkSq [50] 1 []]
+           [mkId [114;103;32;49] [((83,77), [115])]] [mkId [112] []; mkId [113] [((80,80), [112])]]
+           [[104;105;9;120]; []].
+
+Lemma nodup1 {A} (a : A) : NoDup [a].
+Proof. constructor; [intros []|constructor]. Qed.
+
 Example c06_header_example :
-  let h := mkHeader (Some (mkHd 1 6 [((83,79), [117;110;107])]))
-                    [mkSq [99;104;114;49] 2147483647 [((77,53), [97;98])]; mkSq [50] 1 []]
-                    [mkId [114;103;32;49] [((83,77), [115])]] [mkId [112] []; mkId [113] [((80,80), [112])]]
-                    [[104;105;9;120]; []] in
-  wf_header h /\ exists t, write_header h = Some t /\ read_header t = Some h.
+  wf_header c06_example_header /\
+  exists t, write_header c06_example_header = Some t /\ read_header t = Some c06_example_header.
 Proof.
-  cbn zeta. split.
-  - unfold wf_header, wf_hd, wf_sq, wf_id, others_ok, co_ok. cbn.
-    repeat split; repeat constructor; cbn; try lia; try (intuition discriminate); try discriminate.
+  split.
+  - unfold wf_header, c06_example_header. cbn [h_hd h_sq h_rg h_pg h_co].
+    split; [|split; [|split; [|split; [|split; [|split; [|split]]]]]].
+    + unfold wf_hd, others_ok. cbn [hd_major hd_minor hd_other map fst].
+      split; [unfold U32_MAX; lia|]. split; [unfold U32_MAX; lia|]. split; [apply nodup1|repeat constructor].
+    + unfold wf_sq, others_ok. repeat constructor; cbn; try lia; try apply nodup1; try (intros []).
+    + cbn. constructor; [intros [H|[]]; discriminate H|apply nodup1].
+    + unfold wf_id, others_ok. repeat constructor; cbn; try apply nodup1; try (intros []).
+    + cbn. apply nodup1.
+    + unfold wf_id, others_ok. repeat constructor; cbn; try apply nodup1; try (intros []).
+    + cbn. constructor; [intros [H|[]]; discriminate H|apply nodup1].
+    + unfold co_ok. repeat constructor; cbn; try lia; try discriminate.
   - eexists. split; vm_compute; reflexivity.
 Qed.
 
